@@ -322,6 +322,11 @@ func (wd *world) env(act string, c int, id int) bool {
 				wd.result[k] = []any{"err", classify(err)}
 				return
 			}
+			if resp == nil {
+				// neither a response nor an error: the property's "complete valid response or an error" is broken right here
+				wd.result[k] = []any{"panic", "Roundtrip returned a nil response and a nil error"}
+				return
+			}
 			rid := -1
 			if len(resp.BatchItem) == 1 {
 				if pl, ok := resp.BatchItem[0].ResponsePayload.(*payloads.ActivateResponsePayload); ok {
